@@ -88,25 +88,3 @@ func (ex *Exec) selectStmt(fr *Frame, x *ssa.Select) Val {
 	return TupleV{E: out}
 }
 
-// ---- maps (Tier 2) ----
-
-func (ex *Exec) makeMap(x *ssa.MakeMap) Val {
-	unsup("maps are not modelled yet (MakeMap)")
-	return nil
-}
-func (ex *Exec) mapUpdate(fr *Frame, x *ssa.MapUpdate) { unsup("maps are not modelled yet (MapUpdate)") }
-func (ex *Exec) lookup(fr *Frame, x *ssa.Lookup) Val {
-	if s, ok := ex.reg(fr, x.X).(SliceV); ok && s.IsString {
-		i := ex.toIdx(ex.reg(fr, x.Index), x.Index.Type())
-		ex.oblige("index", ex.siteOf(x, ""), x.Pos(), "index within string length", ex.inBounds(i, s.Len))
-		return ex.load(ex.elemPtr(s, i))
-	}
-	unsup("maps are not modelled yet (Lookup)")
-	return nil
-}
-func (ex *Exec) rangeInit(fr *Frame, x *ssa.Range) Val { unsup("range over map/string not modelled yet"); return nil }
-func (ex *Exec) rangeNext(fr *Frame, x *ssa.Next) Val  { unsup("range over map/string not modelled yet"); return nil }
-func (ex *Exec) mapDelete(fr *Frame, ins ssa.Instruction, args []Val) {
-	unsup("maps are not modelled yet (delete)")
-}
-func (ex *Exec) mapLen(m Scalar) *Term { unsup("maps are not modelled yet (len)"); return nil }
